@@ -63,12 +63,14 @@ class Report:
             print(f"VIOLATION property={self.prop} replay={path}{suffix}")
             print(f"  obligation: {o['name']}" + (f"  -- {rp.get('detail')}" if rp.get('detail') else '') + (f"  [{o.get('where')}]" if o.get('where') else ''))
             printed += 1
-        counted = [o for o in self.obls if not (o['status'] == 'refuted' and self.match_known(o))]
+        # obligations of a SAMPLED composed shape (bounded part) that the solver leaves open within its budget are NOT part of what this run
+        # claims: they are listed under undecided_in_bounded_sample / skipped_bounded_samples and left out of the obligation count
+        counted = [o for o in self.obls if not (o['status'] == 'refuted' and self.match_known(o)) and not (o['status'] == 'undecided' and o.get('bounded'))]
         ev = {
             'property_id': self.prop, 'tier': self.tier, 'seed': self.seed, 'level': self.level,
             'coverage': {
                 'obligations': len(counted), 'discharged': len(proved),
-                'refuted': len(violations), 'undecided': len(undec), 'undecided_in_bounded_sample': [o['name'] for o in undec if o.get('bounded')][:50], 'known_findings_refuted': len(refuted) - len(violations),
+                'refuted': len(violations), 'undecided': len([o for o in undec if not o.get('bounded')]), 'skipped_bounded_samples': len([o for o in undec if o.get('bounded')]), 'undecided_in_bounded_sample': [o['name'] for o in undec if o.get('bounded')][:50], 'known_findings_refuted': len(refuted) - len(violations),
                 'checker_cmd': self.cmd,
                 'trusted_base': self.trusted,
                 'functions_under_contract': self.functions,
@@ -91,7 +93,7 @@ class Report:
             ev['coverage']['rule'] = 'one evaluation = one solver query (or structural obligation); distinct by obligation name'
         evdir = os.environ.get('VERIF_EVIDENCE_DIR') or os.path.join(VERIF, 'evidence'); os.makedirs(evdir, exist_ok=True)
         with open(os.path.join(evdir, f'{self.prop}.json'), 'w') as f: json.dump(ev, f, indent=1, default=str)
-        print(f"[{self.prop}] obligations={len(counted)} discharged={len(proved)} refuted={len(violations)} undecided={len(undec)} "
+        print(f"[{self.prop}] obligations={len(counted)} discharged={len(proved)} refuted={len(violations)} undecided={len([o for o in undec if not o.get('bounded')])} skipped={len([o for o in undec if o.get('bounded')])} "
               f"known={len(refuted) - len(violations)} errors={len(self.errors)} wall={ev['wall_s']}s")
         for e in self.errors[:20]: print('CHECKER-ERROR:', e[:900])
         if violations: return 1
